@@ -7,7 +7,7 @@ From Verif Require Import Alist Json Formatters.
 Import ListNotations.
 Open Scope N_scope.
 
-Inductive fnode := NFormatter | NFormatterFilter (pred : N) | NFilter (pred : N).   (* pred: 0 absent 1 true 2 false 3 error *)
+Inductive fnode := NFormatter | NFormatterFilter (pred : N) | NFilter (pred : N).   (* pred: 0 absent 1 true 2 false, anything else: an error (3 = (false, err), 4 = (true, err)) *)
 
 Record fobs := {
   o_err : bool;        (* an error value was returned *)
